@@ -75,4 +75,7 @@ int cmd_c03consts (void) ;
 /* iolog.c (C15) */
 void op_iolog (char **tok, int ntok) ;
 
+/* ieee.c (C20: portable IEEE serialisers, sfendian.h helpers) */
+int cmd_ieee (int argc, char **argv) ;
+
 #endif
